@@ -346,4 +346,68 @@ example : ∃ c', cInstr semItem (fun _ => 0) semState (.assign ⟨1, []⟩ 0 .g
 theorem drop_call_twice_is_double_drop :
     cRun semItem (fun _ => 0) semState [.drop ⟨0, []⟩ 0, .drop ⟨0, []⟩ 0] = .error .doubleDrop := rfl
 
+/-! ### whole runs -/
+
+/-- what S1–S3 say of the step `c → c'` on instruction `i` -/
+def StepSpec (it : Item) (c c' : CState) : Instr → Prop
+  | .drop p ty =>
+    (ownEvs it.ndB (.drop p ty) = [.drop p.var p.proj ty] ∧ ReleasedAt c c' p)
+    ∨ (ownEvs it.ndB (.drop p ty) = [] ∧ c' = tick c)
+  | .assign to ty (.clone p) =>
+    (ownEvs it.ndB (.assign to ty (.clone p)) = [.clone (some p.var) p.proj ty]
+      ∧ (∃ t k, cget c p.var = .whole t k) ∧ CreatedInto it c c' to ty)
+    ∨ (ownEvs it.ndB (.assign to ty (.clone p)) = [] ∧ c'.vs = c.vs ∧ c'.next = c.next)
+  | .assign to ty .global =>
+    (ownEvs it.ndB (.assign to ty .global) = [.clone none [] ty] ∧ CreatedInto it c c' to ty)
+    ∨ (ownEvs it.ndB (.assign to ty .global) = [] ∧ c'.vs = c.vs ∧ c'.next = c.next)
+  | i => ownEvs it.ndB i = []
+
+/-- a run of the token semantics in which every step is the release / copy its events name -/
+def RunSpec (it : Item) (ω : Oracle) : CState → List Instr → CState → Prop
+  | c, [], c' => c' = c
+  | c, i :: is, c' => ∃ c1, cInstr it ω c i = .ok c1 ∧ StepSpec it c c1 i ∧ RunSpec it ω c1 is c'
+
+theorem step_events_are_semantic (it : Item) (ω : Oracle) (c c' : CState) (i : Instr)
+    (h : cInstr it ω c i = .ok c') : StepSpec it c c' i := by
+  cases i with
+  | drop p ty => exact drop_event_iff_release it ω c c' p ty h
+  | setDisc v ty k => rfl
+  | assign to ty v =>
+    cases v with
+    | clone p => exact clone_event_iff_copy it ω c c' to p ty h
+    | global => exact global_event_iff_copy it ω c c' to ty h
+    | lit => rfl
+    | move w => rfl
+    | read vs => rfl
+    | call args => rfl
+    | disc x => rfl
+
+/-- S7. Every run of the token semantics over an instruction list — the runs `checker_sound`
+    speaks about — is, step by step and in order, the releases and copies named by the events;
+    by L2 the concatenation of these events is the list of clone / drop calls of the LIR block. -/
+theorem run_events_are_semantic (it : Item) (ω : Oracle) : ∀ (is : List Instr) (c c' : CState),
+    cRun it ω c is = .ok c' → RunSpec it ω c is c'
+  | [], c, c', h => by
+    simp only [cRun, Except.ok.injEq] at h
+    exact h.symm
+  | i :: is, c, c', h => by
+    simp only [cRun, bind, Except.bind] at h
+    cases h1 : cInstr it ω c i with
+    | error e => simp [h1] at h
+    | ok c1 =>
+      simp only [h1] at h
+      exact ⟨c1, h1, step_events_are_semantic it ω c c1 i h1, run_events_are_semantic it ω is c1 c' h⟩
+
+/-- S8. A block as lowered today: its LIR calls are the concatenated events, and every run of its
+    instructions performs exactly these releases / copies, in this order. -/
+theorem block_run_calls_are_semantic (it : Item) (ω : Oracle) (b : Block) (c c' : CState)
+    (h : cRun it ω c b.instrs = .ok c') :
+    blockEvs RotoV.Gen.MirLower.lowering it.ndB b = some (b.instrs.flatMap (ownEvs it.ndB))
+    ∧ RunSpec it ω c b.instrs c' :=
+  ⟨block_lowering_keeps_events it.ndB b, run_events_are_semantic it ω b.instrs c c' h⟩
+
+/-- Non-vacuity of S7 / S8: clone then drop of the source runs, with both events. -/
+example : ∃ c', cRun semItem (fun _ => 0) semState
+    [.assign ⟨1, []⟩ 0 (.clone ⟨0, []⟩), .drop ⟨0, []⟩ 0] = .ok c' := ⟨_, rfl⟩
+
 end RotoV.C03
